@@ -195,6 +195,8 @@ def run(ctx, sess):
     rule_e1(ctx, P, G, T, reach, roots, exc)
     rule_e15(ctx, P, G, reach, roots, exc)
     rule_e2(ctx, P, G, exc)
+    from .c13 import gate_implies_defined
+    gate_implies_defined(ctx, P, 'C10.2')
     from . import c10b
     c10b.run(ctx, sess, P, G, T, reach, roots, exc)
 
